@@ -66,6 +66,20 @@ pub broadcast proof fn lemma_add_singleton(o: Seq<char>, s: Seq<char>)
     assert(o + s =~= o.push(s[0]));
 }
 
+pub broadcast proof fn lemma_add_pair(o: Seq<char>, s: Seq<char>)
+    requires s.len() == 2
+    ensures #[trigger] (o + s) == o.push(s[0]).push(s[1])
+{
+    assert(o + s =~= o.push(s[0]).push(s[1]));
+}
+
+pub broadcast proof fn lemma_add_triple(o: Seq<char>, s: Seq<char>)
+    requires s.len() == 3
+    ensures #[trigger] (o + s) == o.push(s[0]).push(s[1]).push(s[2])
+{
+    assert(o + s =~= o.push(s[0]).push(s[1]).push(s[2]));
+}
+
 pub proof fn lemma_spaces_add(a: int, b: int)
     requires a >= 0, b >= 0
     ensures spaces(a) + spaces(b) =~= spaces(a + b)
